@@ -455,5 +455,160 @@ impl RenderTableRow {
     }
 //@end
 }
+
+// ---------------------------------------------------------------------------------------------
+// The loop of render_table_tree that spreads cell estimates over the spanned columns (src/lib.rs:2226-2243).
+// R10: cell.get_size_estimate() is the cached estimate of the cell's content: opaque function of the cell.
+struct RenderTable { rows: Vec<RenderTableRow>, num_columns: usize }
+spec fn cell_estimate(c: RenderTableCell) -> SizeEstimate;
+impl RenderTableCell {
+    #[verifier::external_body]
+    fn get_size_estimate(&self) -> (r: SizeEstimate) ensures r == cell_estimate(*self) { unimplemented!() }
+}
+impl SizeEstimate {
+//@item src/lib.rs :: impl SizeEstimate :: fn max
+//@sub /-> SizeEstimate/ ==> -> (r: SizeEstimate)
+//@auto C01 C06
+    fn max(self, other: SizeEstimate) -> (r: SizeEstimate)
+        ensures r.size == (if self.size >= other.size { self.size } else { other.size }) && r.min_width == (if self.min_width >= other.min_width { self.min_width } else { other.min_width }) && r.prefix_size == 0, //@w @C06 #estimate_max
+    {
+        SizeEstimate {
+            size: max(self.size, other.size),
+            min_width: max(self.min_width, other.min_width),
+            prefix_size: 0,
+        }
+    }
+//@end
+}
+spec fn row_ok(row: RenderTableRow, ncols: int) -> bool {
+    (forall|j: int| 0 <= j < row.cells@.len() ==> (#[trigger] row.cells@[j]).colspan >= 1) && colno_upto(row.cells@, row.cells@.len() as int) <= ncols
+}
+
+//@slice src/lib.rs :: fn render_table_tree :: /for row in table\.rows\(\) \{/ .. /\/\/ TODO: remove empty columns/
+//@name spread_slice
+//@auto C01 C06
+//@sub /for row in table\.rows\(\)/ ==> for row in itr: &table.rows
+//@sub /for cell in row\.cells\(\)/ ==> for cell in itc: &row.cells
+//@sub /let mut colno = 0;/ ==> let mut colno: usize = 0;
+fn spread_slice(table: &RenderTable, col_sizes0: Vec<SizeEstimate>) -> (r: Vec<SizeEstimate>) //@w
+    requires //@w
+        // established by RenderTable::new (boundary, A6): every colspan >= 1 and every row stays inside num_columns //@w
+        col_sizes0@.len() == table.num_columns, //@w
+        forall|k: int| 0 <= k < table.rows@.len() ==> row_ok(#[trigger] table.rows@[k], table.num_columns as int), //@w
+    ensures //@w
+        r@.len() == col_sizes0@.len(), //@w @C06 #one_estimate_per_column
+        // estimates only grow (each column is the max over the cells that span it) //@w
+        forall|c: int| 0 <= c < r@.len() ==> (#[trigger] r@[c]).size >= col_sizes0@[c].size && r@[c].min_width >= col_sizes0@[c].min_width, //@w @C06 #estimates_only_grow
+{ //@w
+    let mut col_sizes = col_sizes0; //@w
+    for row in itr: &table.rows
+        invariant //@w
+            col_sizes@.len() == col_sizes0@.len(), col_sizes0@.len() == table.num_columns, //@w
+            forall|k: int| 0 <= k < table.rows@.len() ==> row_ok(#[trigger] table.rows@[k], table.num_columns as int), //@w
+            forall|c: int| 0 <= c < col_sizes@.len() ==> (#[trigger] col_sizes@[c]).size >= col_sizes0@[c].size && col_sizes@[c].min_width >= col_sizes0@[c].min_width, //@w
+    {
+        proof { assert(row_ok(table.rows@[itr.index@], table.num_columns as int)); assert(*row == table.rows@[itr.index@]); } //@w
+        let mut colno: usize = 0;
+        for cell in itc: &row.cells
+            invariant //@w
+                col_sizes@.len() == col_sizes0@.len(), col_sizes0@.len() == table.num_columns, //@w
+                row_ok(*row, table.num_columns as int), //@w
+                colno == colno_upto(row.cells@, itc.index@), //@w
+                forall|c: int| 0 <= c < col_sizes@.len() ==> (#[trigger] col_sizes@[c]).size >= col_sizes0@[c].size && col_sizes@[c].min_width >= col_sizes0@[c].min_width, //@w
+        {
+            proof { //@w
+                let k = itc.index@; //@w
+                assert(*cell == row.cells@[k]); //@w
+                lemma_colno_mono(row.cells@, k + 1, row.cells@.len() as int); //@w
+            } //@w
+            // FIXME: get_size_estimate is still recursive.
+            let mut estimate = cell.get_size_estimate();
+
+            // If the cell has a colspan>1, then spread its size between the
+            // columns.
+            estimate.size /= cell.colspan;
+            estimate.min_width /= cell.colspan;
+            for i in 0..cell.colspan
+                invariant //@w
+                    col_sizes@.len() == col_sizes0@.len(), colno + cell.colspan <= col_sizes@.len(), i <= cell.colspan, col_sizes@.len() <= usize::MAX, //@w
+                    forall|c: int| 0 <= c < col_sizes@.len() ==> (#[trigger] col_sizes@[c]).size >= col_sizes0@[c].size && col_sizes@[c].min_width >= col_sizes0@[c].min_width, //@w
+            {
+                col_sizes[colno + i] = (col_sizes[colno + i]).max(estimate);
+            }
+            colno += cell.colspan;
+        }
+    }
+    col_sizes //@w
+} //@w
+//@end
+
+// ---------------------------------------------------------------------------------------------
+// colspan="0" replacement in tbody_to_render_tree (src/lib.rs:1096-1108).  Free variables: rows, num_columns (per row: has a zero
+// colspan?, sum of max(colspan,1)), max_columns (the largest of those sums) — computed by the iterator chain just above the slice.
+// sum of max(colspan, 1) over the first k cells
+spec fn span1_upto(cells: Seq<RenderTableCell>, k: int) -> nat decreases k { if k <= 0 { 0 } else { span1_upto(cells, k - 1) + (if cells[k - 1].colspan >= 1 { cells[k - 1].colspan as nat } else { 1 }) } }
+proof fn lemma_span1_ge(cells: Seq<RenderTableCell>, k: int)
+    requires 0 <= k,
+    ensures span1_upto(cells, k) >= k,
+    decreases k
+{ if k > 0 { lemma_span1_ge(cells, k - 1); } }
+//@slice src/lib.rs :: fn tbody_to_render_tree :: /for \(i, &\(has_zero, num_cols\)\) in num_columns\.iter\(\)\.enumerate\(\) \{/ .. /Some\(RenderNode::new_styled\(\s*RenderNodeInfo::TableBody\(rows\),/
+//@name colspan0_slice
+//@auto C01 C06
+//@sub /for \(i, &\(has_zero, num_cols\)\) in num_columns\.iter\(\)\.enumerate\(\)/ ==> for i in 0..num_columns.len()
+//@sub /for cell in rows\[i\]\.cells_mut\(\)/ ==> for ci in itc2: 0..rows[i].cells.len()
+fn colspan0_slice(rows0: Vec<RenderTableRow>, num_columns: Vec<(bool, usize)>, max_columns: &usize) -> (r: Vec<RenderTableRow>) //@w[
+    requires
+        // what the iterator chain above the slice computes (A6): per row, whether it has a zero colspan and the sum of max(colspan, 1);
+        // max_columns is at least every such sum
+        num_columns@.len() == rows0@.len(),
+        forall|k: int| 0 <= k < rows0@.len() ==> (#[trigger] num_columns@[k]).1 == span1_upto(rows0@[k].cells@, rows0@[k].cells@.len() as int) && num_columns@[k].1 <= *max_columns,
+        forall|k: int| 0 <= k < rows0@.len() ==> (#[trigger] num_columns@[k]).0 == (exists|j: int| 0 <= j < rows0@[k].cells@.len() && (#[trigger] rows0@[k].cells@[j]).colspan == 0),
+    ensures
+        r@.len() == rows0@.len(),
+        // afterwards no cell has colspan 0 (C01: later code divides by the colspan), and non-zero colspans are untouched (C06)
+        forall|k: int, j: int| 0 <= k < r@.len() && 0 <= j < r@[k].cells@.len() ==> (#[trigger] r@[k].cells@[j]).colspan >= 1, //@w @C01 @C06 #no_zero_colspan_left
+        forall|k: int| 0 <= k < r@.len() ==> (#[trigger] r@[k]).cells@.len() == rows0@[k].cells@.len(), //@w @C03 @C06 #colspan0_keeps_cells
+{ //@w]
+    let mut rows = rows0; //@w
+        for i in 0..num_columns.len()
+            invariant //@w[
+                rows@.len() == rows0@.len(), num_columns@.len() == rows0@.len(),
+                forall|k: int| 0 <= k < rows@.len() ==> (#[trigger] rows@[k]).cells@.len() == rows0@[k].cells@.len(),
+                forall|k: int, j: int| 0 <= k < i && 0 <= j < rows@[k].cells@.len() ==> (#[trigger] rows@[k].cells@[j]).colspan >= 1,
+                forall|k: int| i <= k < rows@.len() ==> #[trigger] rows@[k] == rows0@[k],
+                forall|k: int| 0 <= k < rows0@.len() ==> (#[trigger] num_columns@[k]).1 == span1_upto(rows0@[k].cells@, rows0@[k].cells@.len() as int) && num_columns@[k].1 <= *max_columns,
+                forall|k: int| 0 <= k < rows0@.len() ==> (#[trigger] num_columns@[k]).0 == (exists|j: int| 0 <= j < rows0@[k].cells@.len() && (#[trigger] rows0@[k].cells@[j]).colspan == 0),
+            //@w]
+        {
+            let (has_zero, num_cols) = num_columns[i]; //@w
+            proof { lemma_span1_ge(rows0@[i as int].cells@, rows0@[i as int].cells@.len() as int); assert(rows@[i as int] == rows0@[i as int]); } //@w
+            // Note this won't be sensible if more than one column has colspan=0,
+            // but that's not very well defined anyway.
+            if has_zero {
+                for ci in itc2: 0..rows[i].cells.len()
+                    invariant //@w[
+                        i < rows@.len(), rows@.len() == rows0@.len(), num_columns@.len() == rows0@.len(),
+                        forall|k: int| 0 <= k < rows@.len() ==> (#[trigger] rows@[k]).cells@.len() == rows0@[k].cells@.len(),
+                        forall|k: int, j: int| 0 <= k < i && 0 <= j < rows@[k].cells@.len() ==> (#[trigger] rows@[k].cells@[j]).colspan >= 1,
+                        forall|k: int| i < k < rows@.len() ==> #[trigger] rows@[k] == rows0@[k],
+                        forall|j: int| 0 <= j < ci ==> (#[trigger] rows@[i as int].cells@[j]).colspan >= 1,
+                        forall|j: int| ci <= j < rows@[i as int].cells@.len() ==> #[trigger] rows@[i as int].cells@[j] == rows0@[i as int].cells@[j],
+                        num_cols == span1_upto(rows0@[i as int].cells@, rows0@[i as int].cells@.len() as int), num_cols <= *max_columns,
+                        rows@[i as int].cells@.len() == rows0@[i as int].cells@.len(), rows0@[i as int].cells@.len() >= 1 ==> num_cols >= 1,
+                        itc2.iter.end == rows0@[i as int].cells@.len(),
+                    //@w]
+                {
+                    let cell = &mut rows[i].cells[ci]; //@w
+                    if cell.colspan == 0 {
+                        // +1 because we said it had 1 to start with
+                        cell.colspan = max_columns - num_cols + 1;
+                    }
+                }
+            }
+        }
+    rows //@w
+} //@w
+//@end
 } // verus!
 fn main() {}
